@@ -5,6 +5,7 @@ package blockservice
 
 import (
 	"context"
+	"fmt"
 	"io"
 	"sync"
 
@@ -273,6 +274,12 @@ func getBlock(ctx context.Context, c cid.Cid, bs BlockService, fetchFactory func
 	if err != nil {
 		return nil, err
 	}
+	// Do not trust the exchange to return what was asked for: a block with a
+	// different CID must neither be handed to the caller as the requested one
+	// nor be written to the blockstore (its CID was never validated).
+	if !blk.Cid().Equals(c) {
+		return nil, fmt.Errorf("exchange returned block %s instead of the requested %s", blk.Cid(), c)
+	}
 	// also write in the blockstore for caching, inform the exchange that the block is available
 	err = blockstore.Put(ctx, blk)
 	if err != nil {
@@ -360,6 +367,13 @@ func getBlocks(ctx context.Context, ks []cid.Cid, blockservice BlockService, fet
 			return
 		}
 
+		// Only blocks that were asked for are accepted from the exchange: the
+		// requested CIDs have been validated above, anything else has not.
+		requested := cid.NewSet()
+		for _, c := range misses {
+			requested.Add(c)
+		}
+
 		ex := blockservice.Exchange()
 		var cache [1]blocks.Block // preallocate once for all iterations
 		for {
@@ -372,6 +386,11 @@ func getBlocks(ctx context.Context, ks []cid.Cid, blockservice BlockService, fet
 				b = v
 			case <-ctx.Done():
 				return
+			}
+
+			if !requested.Has(b.Cid()) {
+				logger.Errorf("exchange returned block %s which was not requested, dropping it", b.Cid())
+				continue
 			}
 
 			// write in the blockstore for caching
